@@ -112,4 +112,11 @@ theorem C02_source_finalize_once :
     finalize_gate = ["state.mu.Lock()", "if state.done { state.mu.Unlock() return }", "state.done = true", "state.mu.Unlock()"] ∧
     finalize_done_sets = ["state.done = true", "completedCount++"] := by decide
 
+open TV.Gen.Shapes in
+set_option maxRecDepth 65536 in
+/-- the goroutine that waits for a file's `FileDone` at the sender: a rejected file records the error and returns *before* the slot
+is released and `completedCount` is incremented - the sender's "all files confirmed" never includes a rejected file
+(`Decision.sendReturn`'s `confirmed`) -/
+theorem C02_source_sender_confirm : send_confirm_goroutine = ["fileDone, err := doneRegistry.wait(transferCtx, state.key)", "if err != nil { setErr(err) return }", "if !fileDone.OK { if fileDone.ErrMsg == \"\" { if opts.FileDoneFn != nil { opts.FileDoneFn(state.item.RelPath, false) } setErr(fmt.Errorf(\"receiver reported failure for %s\", state.item.RelPath)) } else { if opts.FileDoneFn != nil { opts.FileDoneFn(state.item.RelPath, false) } setErr(fmt.Errorf(\"receiver reported failure for %s: %s\", state.item.RelPath, fileDone.ErrMsg)) } return }", "if opts.FileDoneFn != nil { opts.FileDoneFn(state.item.RelPath, true) }", "schedMu.Lock()", "for i := 0; i < len(activeFiles); i++ { if activeFiles[i] == state { activeFiles = append(activeFiles[:i], activeFiles[i+1:]...) if activeIdx >= len(activeFiles) { activeIdx = 0 } break } }", "if key, ok := keyByRelPath[state.item.RelPath]; ok { sched.Remove(key) }", "schedMu.Unlock()", "state.closeFile()", "statsMu.Lock()", "activeCount--", "completedCount++", "remainingBytes -= state.item.Size", "active := activeCount", "completed := completedCount", "remaining := remainingBytes", "statsMu.Unlock()", "updateStats(active, completed, remaining)", "if totalFiles > 0 && completed >= totalFiles { signalDone() }", "signalWake()"] := by decide
+
 end TV.Once
